@@ -160,7 +160,8 @@ func checkC16(w *Worker) {
 		x.Case(fmt.Sprint(cfgLoc, L, flagSet, envSet, cfgSet), nsrc >= 2)
 		// every execution observes the settings through csv log (ISO dates reveal the layout), the two registers
 		// restricted by today, and one further command of a rotating list (every command must see the same settings)
-		others := [][]string{{"report", "quantity"}, {"print"}, {"bal"}, {"stats"}, {"report", "totals"}, {"summary", "today"}, {"report", "unresolved"}, {"csv", "database-resolved"}, {"report", "element-total", "cal"}, {"bal", "-s", "cal"}}
+		others := shapeArgs(func(s cmdShape) bool { return !s.Lint && s.Args[0] != "summary" })
+		others = append(others, []string{"summary", "today"})
 		cmds := [][]string{{"--no-color", "csv", "log"}, {"--no-color", "-b", "today", "-e", "today", "reg"}, {"--no-color", "-b", "yesterday", "-e", "today", "reg"}}
 		if nsrc <= 2 {
 			// cells with at most two sources set: every further command
